@@ -1,7 +1,7 @@
 #!/usr/bin/env python3
 """Generate /verif/MANIFEST.json from the plans (one check per claimed property)."""
-import json, sys
-sys.path.insert(0, "/verif/lib")
+import json, os, sys
+sys.path.insert(0, os.path.dirname(os.path.realpath(__file__)))
 import plans
 
 TEXT = {
